@@ -149,3 +149,165 @@ End Concrete.
 Print Assumptions c01_concrete.
 Print Assumptions rollback_concrete.
 Print Assumptions step_concrete.
+
+(** * C02 (between operations) and C17 for the concrete layering *)
+
+(** Generic over the laws, as C01 above: in every state reached by covered
+    operations every original entry is intact in the base view or copied at the
+    same path of the backup view, and the backup view holds nothing but such
+    copies (the statement of Props/C02.v; proved here from [good_run_inv] so
+    that it can be instantiated below). *)
+Section Recoverable.
+  Variables base backup : fsapi.
+  Variables Vb Vk : world -> store.
+  Variables tnb tnk : str -> str.
+  Variables accb acck : str -> str -> Prop.
+  Variables rhb rhk whb whk : fhandle -> str -> nat -> Prop.
+  Variable B0 : store.
+
+  Lemma inv_recoverable_gen : forall w, Inv Vb Vk B0 w ->
+    (forall p n0, B0 !! p = Some n0 -> p <> s_root ->
+       sonode_eqv (Vb w !! p) (Some n0) \/
+       exists nk, Vk w !! p = Some nk /\ copy_of n0 nk) /\
+    (forall p, p <> s_root -> Vk w !! p <> None ->
+       exists n0 nk, B0 !! p = Some n0 /\ Vk w !! p = Some nk /\ copy_of n0 nk).
+  Proof.
+    intros w HI. split.
+    - intros p n0 Hp Hne. destruct (w_infos w !! p) as [[fi|]|] eqn:E.
+      + destruct (inv_some _ _ _ _ HI p fi E) as (n0' & Hn0' & _ & [Hr | (nk & Hk & Hc)]);
+          [contradiction|].
+        rewrite Hp in Hn0'. injection Hn0' as <-. right. exists nk. split; assumption.
+      + pose proof (inv_none _ _ _ _ HI p E) as Hn. rewrite Hp in Hn. discriminate Hn.
+      + left. pose proof (inv_untracked _ _ _ _ HI p E) as H. rewrite Hp in H. exact H.
+    - intros p Hne Hk. destruct (inv_backup_only _ _ _ _ HI p Hne Hk) as (fi & E).
+      destruct (inv_some _ _ _ _ HI p fi E) as (n0 & Hn0 & _ & [Hr | (nk & Hk' & Hc)]);
+        [contradiction|].
+      exists n0, nk. split; [exact Hn0 | split; [exact Hk' | exact Hc]].
+  Qed.
+
+  Lemma recoverable_between_operations :
+    base_laws base Vb Vk tnb accb rhb whb -> base_laws2 base Vb Vk tnb accb rhb whb ->
+    backup_laws backup Vb Vk tnk acck rhk whk ->
+    all_small B0 ->
+    forall w0 ops w, initial Vb Vk tnb tnk accb acck B0 w0 -> good_run base backup Vb w0 ops w ->
+    (forall p n0, B0 !! p = Some n0 -> p <> s_root ->
+       sonode_eqv (Vb w !! p) (Some n0) \/
+       exists nk, Vk w !! p = Some nk /\ copy_of n0 nk) /\
+    (forall p, p <> s_root -> Vk w !! p <> None ->
+       exists n0 nk, B0 !! p = Some n0 /\ Vk w !! p = Some nk /\ copy_of n0 nk).
+  Proof.
+    intros HLb HLb2 HLk Hsmall w0 ops w Hinit Hrun.
+    pose proof Hinit as (_ & _ & _ & HwfB & Hlinks & _ & _).
+    apply inv_recoverable_gen.
+    eapply (good_run_inv base backup Vb Vk tnb tnk accb acck rhb rhk whb whk B0);
+      [exact HLb | exact HLb2 | exact HLk | exact Hlinks | exact Hsmall | exact HwfB | exact Hrun |].
+    apply (initial_inv_spec Vb Vk tnb tnk accb acck B0 w0 Hinit).
+  Qed.
+End Recoverable.
+
+Print Assumptions recoverable_between_operations.
+
+Section Concrete2.
+  Variables pa pb : str.
+  Hypothesis Ha : prefix_ok pa.
+  Hypothesis Hb : prefix_ok pb.
+  Hypothesis Hd : disjoint_prefixes pa pb.
+
+  Let Lb := the_api_laws TBase pa pb Ha Hb Hd.
+  Let Lb2 := the_api_laws2 TBase pa pb Ha Hb Hd.
+  Let Lk := the_api_laws TBackup pb pa Hb Ha (disjoint_prefixes_sym pa pb Hd).
+
+  (** C02 between operations, closed *)
+  Theorem c02_concrete :
+    forall B0, all_small B0 ->
+    forall w0 ops w,
+      initial (Vp pa) (Vp pb) clean clean (acc_p pa) (acc_p pb) B0 w0 ->
+      good_run (cfg_base (gcfg pa pb)) (cfg_backup (gcfg pa pb)) (Vp pa) w0 ops w ->
+      (forall p n0, B0 !! p = Some n0 -> p <> s_root ->
+         sonode_eqv (Vp pa w !! p) (Some n0) \/
+         exists nk, Vp pb w !! p = Some nk /\ copy_of n0 nk) /\
+      (forall p, p <> s_root -> Vp pb w !! p <> None ->
+         exists n0 nk, B0 !! p = Some n0 /\ Vp pb w !! p = Some nk /\ copy_of n0 nk).
+  Proof using Ha Hb Hd.
+    intros B0 Hsmall w0 ops w Hinit Hrun.
+    exact (recoverable_between_operations (the_api TBase pa) (the_api TBackup pb) (Vp pa) (Vp pb)
+             clean clean (acc_p pa) (acc_p pb) (rh_p TBase pa) (rh_p TBackup pb)
+             (wh_p TBase pa) (wh_p TBackup pb) B0 Lb Lb2 Lk Hsmall w0 ops w Hinit Hrun).
+  Qed.
+
+  (** the invariant holds in every state reached from an initial one by
+      covered operations (what links C01/C02 to [step_concrete],
+      [rollback_concrete] and the ForceBackup theorems below) *)
+  Theorem inv_concrete :
+    forall B0, all_small B0 ->
+    forall w0 ops w,
+      initial (Vp pa) (Vp pb) clean clean (acc_p pa) (acc_p pb) B0 w0 ->
+      good_run (cfg_base (gcfg pa pb)) (cfg_backup (gcfg pa pb)) (Vp pa) w0 ops w ->
+      Inv (Vp pa) (Vp pb) B0 w.
+  Proof using Ha Hb Hd.
+    intros B0 Hsmall w0 ops w Hinit Hrun.
+    pose proof Hinit as (_ & _ & _ & HwfB & Hlinks & _ & _).
+    exact (good_run_inv (the_api TBase pa) (the_api TBackup pb) (Vp pa) (Vp pb) clean clean
+             (acc_p pa) (acc_p pb) (rh_p TBase pa) (rh_p TBackup pb) (wh_p TBase pa) (wh_p TBackup pb)
+             B0 Lb Lb2 Lk Hlinks Hsmall HwfB w0 ops w Hrun
+             (initial_inv_spec (Vp pa) (Vp pb) clean clean (acc_p pa) (acc_p pb) B0 w0 Hinit)).
+  Qed.
+
+  (** ForceBackup keeps the invariant for the new baseline, closed
+      ([force_backup_stmt] of Proofs/BackupForce.v without its law hypotheses) *)
+  Theorem force_backup_concrete :
+    forall B0, links_ok clean clean (acc_p pa) (acc_p pb) B0 -> all_small B0 -> swf B0 ->
+    forall w p, Inv (Vp pa) (Vp pb) B0 w -> snolinkpar (Vp pa w) p -> p <> s_root ->
+    entry_ok clean clean (acc_p pa) (acc_p pb) p (Vp pa w !! p) -> orig_not_dir_cond w p ->
+    parents_original (Vp pa) B0 w p ->
+    let B0' := rebase B0 p (Vp pa w !! p) in
+    swf B0' /\ links_ok clean clean (acc_p pa) (acc_p pb) B0' /\ all_small B0' /\
+    exists r w', b_force_backup (cfg_base (gcfg pa pb)) (cfg_backup (gcfg pa pb)) p w = (r, w') /\
+                 r <> MHalt /\ Vp pa w' = Vp pa w /\
+                 Inv (Vp pa) (Vp pb) B0' w' /\
+                 (forall q, q <> p -> w_infos w !! q <> None -> w_infos w' !! q = w_infos w !! q) /\
+                 (forall q, w_infos w' !! q <> None -> w_infos w !! q <> None \/ In q (cands p)) /\
+                 (r = MOk tt ->
+                    Forall (tracked w') (ancestors p) /\
+                    match Vp pa w !! p with
+                    | None => w_infos w' !! p = Some None
+                    | Some n => exists fi, w_infos w' !! p = Some (Some fi) /\ info_matches fi n
+                    end) /\
+                 ((forall q n, In q (ancestors p) -> Vp pa w !! q = Some n -> node_kind n = KDir) ->
+                  r = MOk tt) /\
+                 (r <> MOk tt -> w_infos w !! p = Some None ->
+                  w_infos w' !! p = Some None /\ Vp pa w !! p = None).
+  Proof using Ha Hb Hd.
+    intros B0 Hl Hs Hwf w p HI Hnlp Hne Hcur Hfi Hpar0.
+    exact (force_backup_spec (the_api TBase pa) (the_api TBackup pb) (Vp pa) (Vp pb) clean clean
+             (acc_p pa) (acc_p pb) (rh_p TBase pa) (rh_p TBackup pb) (wh_p TBase pa) (wh_p TBackup pb)
+             B0 Lb Lk Hl Hs Hwf w p HI Hnlp Hne Hcur Hfi Hpar0).
+  Qed.
+
+  (** C17, closed: ForceBackup(p), covered operations, Rollback *)
+  Theorem c17_concrete :
+    forall B0, links_ok clean clean (acc_p pa) (acc_p pb) B0 -> all_small B0 -> swf B0 ->
+    forall w p, Inv (Vp pa) (Vp pb) B0 w -> snolinkpar (Vp pa w) p -> p <> s_root ->
+    entry_ok clean clean (acc_p pa) (acc_p pb) p (Vp pa w !! p) -> orig_not_dir_cond w p ->
+    parents_original (Vp pa) B0 w p ->
+    forall r w1 ops w2,
+      b_force_backup (cfg_base (gcfg pa pb)) (cfg_backup (gcfg pa pb)) p w = (r, w1) ->
+      good_run (cfg_base (gcfg pa pb)) (cfg_backup (gcfg pa pb)) (Vp pa) w1 ops w2 ->
+      exists w3, b_rollback (cfg_base (gcfg pa pb)) (cfg_backup (gcfg pa pb)) w2 = (MOk tt, w3) /\
+                 sonode_eqv (Vp pa w3 !! p) (Vp pa w !! p) /\
+                 (forall q, q <> p -> q <> s_root -> sonode_eqv (Vp pa w3 !! q) (B0 !! q)) /\
+                 (forall q, q <> s_root -> Vp pb w3 !! q = None) /\ w_infos w3 = ∅ /\
+                 (r <> MOk tt -> (forall fi, w_infos w !! p <> Some (Some fi)) ->
+                  sonode_eqv (Vp pa w3 !! p) (B0 !! p)).
+  Proof using Ha Hb Hd.
+    intros B0 Hl Hs Hwf w p HI Hnlp Hne Hcur Hfi Hpar0 r w1 ops w2 Hrun Hgood.
+    exact (c17_spec (the_api TBase pa) (the_api TBackup pb) (Vp pa) (Vp pb) clean clean
+             (acc_p pa) (acc_p pb) (rh_p TBase pa) (rh_p TBackup pb) (wh_p TBase pa) (wh_p TBackup pb)
+             B0 Lb Lb2 Lk Hl Hs Hwf w p HI Hnlp Hne Hcur Hfi Hpar0 r w1 ops w2 Hrun Hgood).
+  Qed.
+End Concrete2.
+
+Print Assumptions c02_concrete.
+Print Assumptions inv_concrete.
+Print Assumptions force_backup_concrete.
+Print Assumptions c17_concrete.
